@@ -161,7 +161,7 @@ def generate(tier):
         if r_:
             cases.append(r_)
         from .common import localsify
-        for sch in (0, 1):
+        for sch in (0, 1, 2):
             r_ = localsify(c, sch)
             if r_:
                 cases.append(r_)
